@@ -414,7 +414,9 @@ func check(args []string) {
 	driver := fs.String("driver", "", "path to the Lean driver")
 	out := fs.String("out", "", "report file")
 	repo := fs.String("repo", "/repo", "repository root (for the corpus)")
+	consts := fs.String("consts", "", "constants.json written by the fact extractor (harvested boundary values)")
 	fs.Parse(args)
+	constsPath = *consts
 
 	start := time.Now()
 	rng := NewRng(*seed ^ hashString(*prop))
